@@ -184,6 +184,7 @@ def main(argv=None):
           % (prop, tier, len(results), n_obl, n_dis, len(violations), len(known_hits), len(undecided), ev["wall_s"], solver_total))
     for u in undecided:
         print("UNDECIDED: " + u[:400].replace("\n", " "))
+    RP.cleanup_libs()
     if not a.keep:
         shutil.rmtree(propdir, ignore_errors=True)
     return code
